@@ -102,8 +102,8 @@ Fixpoint exec_count (fuel : nat) (E : env) (m : machine) : result * nat :=
       end
   end.
 
-(* nesting depth of sub-VM activations is not observable on `exec`; the budget argument for it
-   is the +100 charged by every call (C07_call_costs_100 in Proofs/VMSafety.v) *)
+(* nesting depth of sub-VM activations: measured by the instrumented run exec_depth and bounded by the budget in
+   Proofs/VMDepth.v (C07_call_depth_exact) *)
 
 (* ------------------------------------------------------------------ counting twins of the budgeted rounds *)
 (* VM.wod_budget / VM.dc_budget, also returning the number of dice of the rounds that were STARTED
